@@ -7,7 +7,7 @@ Driver for property C19: `kitdrv C19` reads one request per line, answers one li
 * `lts v=fixed|cur ev=<e1>,<e2>,…` — trace inclusion for the readiness LTS: the observable events of
   a real execution are run through the τ-closed state-set simulation (`Kit.Spiffe.accept`).
   Events: `cr` `cy` `cg` `cgp` `cr2` `park:i` `rel:i` `cx:i` `req:k` `rep:0|1`
-  `ret:i:ok|ctx|e|s<k>` `rret:err` `q:i+j+…`.  Answer: `accept` or `reject k=<index> ev=<event> …`.
+  `ret:i:ok|ctx|e|s<k>` `rret:err|nil` `sx` (Run's ctx ends) `q:i+j+…`.  Answer: `accept` or `reject k=<index> ev=<event> …`.
 * `renew dir=0|1 anch=<n> t0=<ns> script=<o:nb:na|f|f:<cd>:<tag>|a:nb:na>,… steps=<a:ns|t:n|w|ans>,…` — runs the renewal
   automaton; answer: requests, served token after each step, armed timers, published file sets.
 -/
@@ -40,7 +40,8 @@ def parseEv (w : String) : Option Ev :=
       | _, _ => none
     else none
   | ["rret", "err"] => some (.runRet true)
-  | ["rret", "nil"] => some .nop
+  | ["rret", "nil"] => some (.runRet false)
+  | ["sx"] => some .cancelRun
   | ["rret2", _] => some .nop
   | ["q", p] =>
     if p == "" then some (.quiet [])
@@ -51,7 +52,7 @@ def showRun (r : RunPc) : String := (reprStr r).replace "Kit.Spiffe.RunPc." ""
 def showCons (c : ConsPc) : String := (reprStr c).replace "Kit.Spiffe.ConsPc." ""
 
 def showSt (s : St) : String :=
-  s!"[run={showRun s.run} readers={s.readers} wPend={s.wPend} wHeld={s.wHeld} ready={s.ready} svid={s.svid} cons={s.cons.map showCons}]"
+  s!"[run={showRun s.run} readers={s.readers} wPend={s.wPend} wHeld={s.wHeld} ready={s.ready} svid={s.svid} runCtxDone={s.runCtx} cons={s.cons.map showCons}]"
 
 def doLts (l : Line) : String :=
   let v : Variant := if l.get? "v" == some "cur" then .cur else .fixed
